@@ -12,6 +12,10 @@ def main():
     chk.assume(*e2prop.E2_ASSUME)
     chk.assume('values are opaque symbolic payloads (these operations only move values); index arrays are concrete per swept pattern, their validity is checked on each run')
     e2prop.run_e2(chk, e2prop.e2_harness_path('c02_e2.cpp'), 'c02_e2', timeout=60, harness_args=['--bounds'] + b)
+    # meta-matrix slice: conversion of the meta matrices of c01_e2.cpp to one CSR matrix, scale_rows / scale_cols
+    chk.bounds.append('E2 meta-matrix slice: PowerRow/Col/Diag/Full and SaddlePoint matrices over CSR blocks (3 block variants incl. entry-free blocks and empty rows) converted to one SparseMatrixCSR; PowerDiag scale_rows / scale_cols')
+    chk.functions += ['LAFEM::SparseMatrixCSR::convert(const MT_&) for PowerRowMatrix / PowerColMatrix / PowerDiagMatrix / PowerFullMatrix / SaddlePointMatrix', 'get_length_of_line / set_line of the meta matrices', 'LAFEM::PowerDiagMatrix::{scale_rows,scale_cols}']
+    e2prop.run_e2(chk, e2prop.e2_harness_path('c02m_e2.cpp'), 'c02m_e2', timeout=60, harness_args=[], max_group=1)
     return chk.finish(
         explanation='Bounded symbolic check: transposition, cloning, format/index-type conversion, permutation and layout rebuilding of the real LAFEM classes are executed for every pattern / mode / permutation inside the bound with symbolic values; the result must represent the same (resp. transposed, permuted) dense matrix for ALL values, have the correct dimensions and a structurally valid layout; clone aliasing is checked by pointer identity and by writing through the clone.',
         rule=e2prop.E2_RULE, trusted=e2prop.E2_TRUSTED)
